@@ -1,6 +1,7 @@
 """C01 Compiler and interpreter agree on every valid program - WasmTyping.tla (typing automaton as program generator)."""
 import json
 import random
+from concurrent.futures import ThreadPoolExecutor
 import vlib
 
 CFG = """SPECIFICATION Spec
@@ -12,34 +13,43 @@ CONSTANTS
   Ops <- %(ops)s
   CallSigs <- SigPool
   AllowInvalid = %(inv)s
+  AddrClass = "%(addr)s"
+  Idioms = %(idioms)s
 INVARIANTS FramesNested %(emit)s
 CHECK_DEADLOCK FALSE
 """
 SIGS = [("P_ii", "R_i"), ("P_fd", "R_d"), ("P_v", "R_v"), ("P_0", "R_0"), ("P_ii", "R_li")]
 
 
-def cfg(target, p, r, ops, inv="FALSE", emit="EmitBody"):
-    return CFG % dict(target=target, maxlen=target * 3, p=p, r=r, ops=ops, inv=inv, emit=emit)
+def cfg(target, p, r, ops, inv="FALSE", emit="EmitBody", addr="addr", idioms="TRUE"):
+    return CFG % dict(target=target, maxlen=target * 3, p=p, r=r, ops=ops, inv=inv, emit=emit, addr=addr, idioms=idioms)
 
 
 def generate(ctx, q, invalid=False):
     """Simulated walks of the typing automaton; returns the emitted bodies."""
-    out = []
-    profiles = [("ScalarOps", 30 if q else 60, 350 if q else 3000), ("OpSig", 50 if q else 120, 250 if q else 3000),
-                ("VecOps", 40, 150 if q else 1500)]
-    k = 0
+    profiles = [("ScalarOps", 30 if q else 60, 300 if q else 3000, "addr"), ("OpSig", 50 if q else 120, 220 if q else 3000, "addr"),
+                ("VecOps", 40, 150 if q else 1500, "addr"),
+                # short bodies whose accesses are around the end of the memory: traps are the point, not a loss
+                ("MemOps", 12, 250 if q else 3000, "edge"), ("MemOps", 24, 150 if q else 2000, "edge")]
+    jobs = []
     for (p, r) in SIGS:
-        for ops, target, num in profiles:
+        for ops, target, num, addr in profiles:
             if ops == "VecOps" and p not in ("P_v", "P_0"):
                 continue
-            k += 1
-            files = {"w.cfg": cfg(target, p, r, ops, "TRUE" if invalid else "FALSE")}
-            n = max(20, num // (3 if invalid else 1))
-            res = ctx.tlc("WasmTypingMC", "w.cfg", extra_files=files, workers=1, simulate="num=%d" % n, depth=target * 4,
-                          seed=ctx.seed * 100 + k, tag="walks:%s:%s->%s%s" % (ops, p, r, ":invalid" if invalid else ""), design=True,
-                          timeout=2400)
-            out += res["emitted"]
-    return out
+            if ops == "MemOps" and p == "P_fd":
+                continue
+            jobs.append((len(jobs) + 1, p, r, ops, target, num, addr))
+
+    def one(job):
+        k, p, r, ops, target, num, addr = job
+        files = {"w%d.cfg" % k: cfg(target, p, r, ops, "TRUE" if invalid else "FALSE", addr=addr)}
+        n = max(20, num // (3 if invalid else 1))
+        res = ctx.tlc("WasmTypingMC", "w%d.cfg" % k, extra_files=files, workers=1, simulate="num=%d" % n, depth=target * 4,
+                      seed=ctx.seed * 100 + k, tag="walks:%s/%d/%s:%s->%s%s" % (ops, target, addr, p, r, ":invalid" if invalid else ""),
+                      design=True, timeout=2400)
+        return res["emitted"]
+    with ThreadPoolExecutor(8) as ex:
+        return [b for part in ex.map(one, jobs) for b in part]
 
 
 def modules(bodies, rnd, per=3):
@@ -65,8 +75,10 @@ def run(ctx):
         items = [json.load(open(ctx.replay_path))["replay"]]
     else:
         uniq = distinct([b for b in generate(ctx, q) if b["bad"] == ""])
-        if q and len(uniq) > 2400:
-            uniq = rnd.sample(uniq, 2400)
+        if q:        # every edge-of-memory body, a sample of the others
+            edge = [b for b in uniq if any(i["a"] == "edge" for i in b["code"])]
+            rest = [b for b in uniq if not any(i["a"] == "edge" for i in b["code"])]
+            uniq = edge + (rnd.sample(rest, 1800) if len(rest) > 1800 else rest)
         ctx.extra["programs"] = len(uniq)
         items = modules(uniq, rnd)
     results = ctx.replay("wexec-diff", items, timeout=3400)
